@@ -11,8 +11,15 @@ use serde_json::{json, Value};
 use std::collections::hash_map::RandomState;
 use std::hash::{BuildHasher, Hash, Hasher};
 use std::sync::Arc;
+use std::cell::Cell;
 use zipora::containers::specialized::{EasyHashMap, GoldHashIdx, HashStrMap, SmallMap};
-use zipora::hash_map::{GoldHashMap, GoldHashMapConfig, IterationStrategy, ZiporaHashMap, ZiporaHashMapConfig};
+use zipora::hash_map::{
+    advanced_hash_combine, bmi2_hash_combine_u64, extract_bucket_with_bmi2, extract_hash_bucket_bmi2, fabo_hash_combine_u32, fabo_hash_combine_u64,
+    fast_string_hash_bmi2, get_global_bmi2_dispatcher, hash_combine_with_bmi2, hash_with_bmi2, specialized, CombineStrategy, GoldHashMap,
+    GoldHashMapConfig, HashCombinable, HashFunctionBuilder, HashStrategy, IterationStrategy, OptimizationStrategy, StorageStrategy, ZiporaHashMap,
+    ZiporaHashMapConfig,
+};
+use zipora::string::FastStr;
 use zv::*;
 
 // ---------------------------------------------------------------- keys with a chosen hash
@@ -61,12 +68,42 @@ impl BuildHasher for PassThrough {
 
 /// hash profiles: how abstract key ids are mapped to hash values
 const PROFILES: &[&str] = &["ident", "zero", "max", "collide", "low2", "random", "zeromax"];
+/// The library's own hash functions (src/hash_map/hash_functions.rs, FastStr::hash_fast) used as "the hash
+/// function the caller supplies".  Computed afresh for every call: a map only works if they are functions.
+fn lib_hash(id: u32) -> u64 {
+    let x = id as u64;
+    match id % 12 {
+        0 => fabo_hash_combine_u64(x.wrapping_mul(0x9E3779B97F4A7C15), x),
+        1 => bmi2_hash_combine_u64(0, x),
+        2 => advanced_hash_combine(&[x, x ^ 0x5555, 3]),
+        3 => specialized::hash_complex_key_bmi2(&[x, 7]),
+        4 => HashFunctionBuilder::new().with_rotation(13).with_strategy(CombineStrategy::Xor).build_u64()(x, 1),
+        5 => hash_with_bmi2(format!("key-{id}-padding")),
+        6 => hash_combine_with_bmi2(x, 3),
+        7 => specialized::hash_integer_bmi2(id),
+        8 => specialized::hash_tuple_bmi2(id, 5u32),
+        9 => fast_string_hash_bmi2(&format!("k{id}"), 0),
+        10 => (HashFunctionBuilder::new().with_strategy(CombineStrategy::Advanced).build_u32()(id, 9) as u64) << 7 | fabo_hash_combine_u32(id, 1) as u64,
+        _ => x.fabo_combine(specialized::hash_float_bmi2(id as f64)) ^ specialized::hash_string_bmi2(&format!("s{id}")),
+    }
+}
 fn hash_of(profile: &str, id: u32) -> u64 {
     let mix = |x: u64| {
         let mut r = Rng::new(x);
         r.next()
     };
     match profile {
+        "libmix" => lib_hash(id),
+        // bucket extraction: 8 distinct hash values including 0 (mass collisions on the slot marker)
+        "libbucket" => {
+            let h = get_global_bmi2_dispatcher().hash_combine_optimal(id as u64, 11);
+            if id % 2 == 0 {
+                extract_bucket_with_bmi2(h, 3) as u64
+            } else {
+                extract_hash_bucket_bmi2(h, 3) as u64
+            }
+        }
+        "libfaststr" => FastStr::from_string(&skey(id)).hash_fast(),
         "ident" => id as u64 + 1,
         "zero" => {
             if id == 0 {
@@ -93,7 +130,19 @@ fn hash_of(profile: &str, id: u32) -> u64 {
     }
 }
 
+
 // ---------------------------------------------------------------- subjects
+
+/// arguments drawn by the driver for the additional operations of a subject
+#[derive(Clone, Default)]
+struct XArgs {
+    k: u32,
+    v: u32,
+    w: u32,
+    ks: Vec<u32>,
+    kv: Vec<(u32, u32)>,
+    n: usize,
+}
 
 /// Uniform view of a map under test.  Every method is a thin call-through; `None` for an
 /// operation the type does not offer.
@@ -103,18 +152,62 @@ trait Subj {
         None
     }
     fn get(&self, k: u32) -> Option<u32>;
+    /// the getter the `get` operation uses (a twin of get where the type has one); probes use `get`
+    fn get_op(&self, k: u32) -> Option<u32> {
+        self.get(k)
+    }
     fn get_mut(&mut self, k: u32, newv: u32) -> Option<Option<u32>>;
     fn remove(&mut self, k: u32) -> Result<Option<u32>, ()>;
     fn contains(&self, k: u32) -> bool;
     fn len(&self) -> usize;
+    fn is_empty(&self) -> Option<bool> {
+        None
+    }
     fn iter(&self) -> Option<Vec<(u32, u32)>>;
     fn clear(&mut self) -> bool;
-    fn extra(&mut self) {}
+    /// which entry point the last insert/get/contains/clear went through (twins)
+    fn via(&self) -> Option<&'static str> {
+        None
+    }
+    /// event describing what the constructor already put into the map (from_iter)
+    fn initial(&self) -> Option<Value> {
+        None
+    }
+    /// names of the additional operations this subject offers
+    fn extras(&self) -> Vec<&'static str> {
+        vec![]
+    }
+    /// the subset of `extras` whose contract is "content unchanged" (injected between the steps
+    /// of TLC-generated histories and of the scripted scenarios)
+    fn maint(&self) -> Vec<&'static str> {
+        vec![]
+    }
+    /// execute one additional operation and return its complete event
+    fn extra(&mut self, _name: &str, _x: &XArgs) -> Option<Value> {
+        None
+    }
+}
+
+fn o(x: Option<u32>) -> Value {
+    opt(x)
+}
+fn pairs(v: &[(u32, u32)]) -> Value {
+    Value::Array(v.iter().map(|(k, x)| json!([k, x])).collect())
+}
+fn maint_ev(what: &str, x: Value) -> Value {
+    let mut e = json!({"op":"maintenance","what":what});
+    if let (Some(o), Some(c)) = (e.as_object_mut(), x.as_object()) {
+        for (k, v) in c {
+            o.insert(k.clone(), v.clone());
+        }
+    }
+    e
 }
 
 struct Zhm<S: BuildHasher> {
     m: ZiporaHashMap<HK, u32, S>,
     p: String,
+    cloner: Option<fn(&ZiporaHashMap<HK, u32, S>) -> ZiporaHashMap<HK, u32, S>>,
 }
 impl<S: BuildHasher> Zhm<S> {
     fn k(&self, id: u32) -> HK {
@@ -143,12 +236,35 @@ impl<S: BuildHasher> Subj for Zhm<S> {
     fn len(&self) -> usize {
         self.m.len()
     }
+    fn is_empty(&self) -> Option<bool> {
+        Some(self.m.is_empty())
+    }
     fn iter(&self) -> Option<Vec<(u32, u32)>> {
         Some(self.m.iter().map(|(k, v)| (k.id, *v)).collect())
     }
     fn clear(&mut self) -> bool {
         self.m.clear();
         true
+    }
+    fn extras(&self) -> Vec<&'static str> {
+        if self.cloner.is_some() {
+            vec!["clone"]
+        } else {
+            vec![]
+        }
+    }
+    fn maint(&self) -> Vec<&'static str> {
+        self.extras()
+    }
+    fn extra(&mut self, name: &str, _x: &XArgs) -> Option<Value> {
+        match name {
+            "clone" => {
+                let c = (self.cloner?)(&self.m);
+                self.m = c;
+                Some(json!({"op":"clone","eq":[]}))
+            }
+            _ => None,
+        }
     }
 }
 
@@ -157,6 +273,10 @@ struct Gold<L: zipora::hash_map::LinkType> {
     p: String,
     strat: Option<IterationStrategy>,
     revoke: bool,
+    /// the configured default iteration strategy is Fast: iter() is the fast iteration
+    fast_default: bool,
+    /// offers the configuration-changing calls too
+    toggle: bool,
 }
 impl<L: zipora::hash_map::LinkType> Gold<L> {
     fn k(&self, id: u32) -> HK {
@@ -185,7 +305,13 @@ impl<L: zipora::hash_map::LinkType> Subj for Gold<L> {
     fn len(&self) -> usize {
         self.m.len()
     }
+    fn is_empty(&self) -> Option<bool> {
+        Some(self.m.is_empty())
+    }
     fn iter(&self) -> Option<Vec<(u32, u32)>> {
+        if self.fast_default {
+            return None; // iter() is the fast iteration: offered as the extra "iter_default"
+        }
         Some(match self.strat {
             None => self.m.iter().map(|(k, v)| (k.id, *v)).collect(),
             Some(s) => self.m.iter_with_strategy(s).map(|(k, v)| (k.id, *v)).collect(),
@@ -195,10 +321,55 @@ impl<L: zipora::hash_map::LinkType> Subj for Gold<L> {
         self.m.clear();
         true
     }
-    fn extra(&mut self) {
-        if self.revoke {
-            let _ = self.m.revoke_deleted();
+    fn extras(&self) -> Vec<&'static str> {
+        let mut v = vec!["reserve", "iter_fast", "iter_safe"];
+        if self.fast_default {
+            v.push("iter_default");
         }
+        if self.revoke || self.toggle {
+            v.push("revoke_deleted");
+        }
+        if self.toggle {
+            v.push("hash_cache_on");
+            v.push("hash_cache_off");
+        }
+        v
+    }
+    fn maint(&self) -> Vec<&'static str> {
+        self.extras().into_iter().filter(|n| !n.starts_with("iter")).collect()
+    }
+    fn extra(&mut self, name: &str, x: &XArgs) -> Option<Value> {
+        Some(match name {
+            "reserve" => {
+                let ok = self.m.reserve(x.n).is_ok();
+                maint_ev("reserve", json!({"n": x.n, "ok": ok}))
+            }
+            "revoke_deleted" => {
+                let ok = self.m.revoke_deleted().is_ok();
+                maint_ev("revoke_deleted", json!({"ok": ok}))
+            }
+            "hash_cache_on" => {
+                self.m.set_hash_caching(true);
+                maint_ev("set_hash_caching", json!({"on": true}))
+            }
+            "hash_cache_off" => {
+                self.m.set_hash_caching(false);
+                maint_ev("set_hash_caching", json!({"on": false}))
+            }
+            "iter_fast" => {
+                let it: Vec<(u32, u32)> = self.m.iter_fast().map(|(k, v)| (k.id, *v)).collect();
+                json!({"op":"iter_fast","via":"iter_fast","r":pairs(&it)})
+            }
+            "iter_default" => {
+                let it: Vec<(u32, u32)> = self.m.iter().map(|(k, v)| (k.id, *v)).collect();
+                json!({"op":"iter_fast","via":"iter","r":pairs(&it)})
+            }
+            "iter_safe" => {
+                let it: Vec<(u32, u32)> = self.m.iter_with_strategy(IterationStrategy::Safe).map(|(k, v)| (k.id, *v)).collect();
+                json!({"op":"iter","via":"iter_with_strategy(Safe)","r":pairs(&it)})
+            }
+            _ => return None,
+        })
     }
 }
 
@@ -233,14 +404,39 @@ impl Subj for Idx {
     fn len(&self) -> usize {
         self.m.len()
     }
+    fn is_empty(&self) -> Option<bool> {
+        Some(self.m.is_empty())
+    }
     fn iter(&self) -> Option<Vec<(u32, u32)>> {
         None
     }
     fn clear(&mut self) -> bool {
         false
     }
-    fn extra(&mut self) {
-        self.m.shrink_to_fit();
+    fn extras(&self) -> Vec<&'static str> {
+        vec!["shrink_to_fit", "insert_batch", "get_batch", "shrink_to_fit"]
+    }
+    fn maint(&self) -> Vec<&'static str> {
+        vec!["shrink_to_fit"]
+    }
+    fn extra(&mut self, name: &str, x: &XArgs) -> Option<Value> {
+        Some(match name {
+            "shrink_to_fit" => {
+                self.m.shrink_to_fit();
+                maint_ev("shrink_to_fit", json!({}))
+            }
+            "insert_batch" => {
+                let items: Vec<(HK, u32)> = x.kv.iter().map(|&(k, v)| (self.k(k), v)).collect();
+                let ok = self.m.insert_batch(items).is_ok();
+                json!({"op":"insert_batch","kv":pairs(&x.kv),"ok":ok})
+            }
+            "get_batch" => {
+                let keys: Vec<HK> = x.ks.iter().map(|&k| self.k(k)).collect();
+                let r: Vec<Value> = self.m.get_batch(&keys).into_iter().map(|v| o(v.copied())).collect();
+                json!({"op":"get_batch","ks":x.ks,"r":r})
+            }
+            _ => return None,
+        })
     }
 }
 
@@ -248,6 +444,8 @@ struct Small<K: Copy + From<u8> + Hash + Eq + 'static> {
     m: SmallMap<K, u32>,
     conv: fn(u32) -> K,
     back: fn(&K) -> u32,
+    /// twin getter (SmallMap<u8,_>::get_fast)
+    fast: Option<fn(&SmallMap<K, u32>, &K) -> Option<u32>>,
 }
 impl<K: Copy + From<u8> + Hash + Eq + 'static> Subj for Small<K> {
     fn insert(&mut self, k: u32, v: u32) -> Option<Result<Option<u32>, ()>> {
@@ -255,6 +453,15 @@ impl<K: Copy + From<u8> + Hash + Eq + 'static> Subj for Small<K> {
     }
     fn get(&self, k: u32) -> Option<u32> {
         self.m.get(&(self.conv)(k)).copied()
+    }
+    fn get_op(&self, k: u32) -> Option<u32> {
+        match self.fast {
+            Some(f) => f(&self.m, &(self.conv)(k)),
+            None => self.get(k),
+        }
+    }
+    fn via(&self) -> Option<&'static str> {
+        self.fast.map(|_| "get_fast")
     }
     fn get_mut(&mut self, k: u32, newv: u32) -> Option<Option<u32>> {
         Some(self.m.get_mut(&(self.conv)(k)).map(|r| std::mem::replace(r, newv)))
@@ -268,6 +475,9 @@ impl<K: Copy + From<u8> + Hash + Eq + 'static> Subj for Small<K> {
     fn len(&self) -> usize {
         self.m.len()
     }
+    fn is_empty(&self) -> Option<bool> {
+        Some(self.m.is_empty())
+    }
     fn iter(&self) -> Option<Vec<(u32, u32)>> {
         Some(self.m.iter().map(|(k, v)| ((self.back)(k), *v)).collect())
     }
@@ -275,17 +485,56 @@ impl<K: Copy + From<u8> + Hash + Eq + 'static> Subj for Small<K> {
         self.m.clear();
         true
     }
+    fn extras(&self) -> Vec<&'static str> {
+        vec!["clone"]
+    }
+    fn maint(&self) -> Vec<&'static str> {
+        vec!["clone"]
+    }
+    fn extra(&mut self, name: &str, _x: &XArgs) -> Option<Value> {
+        match name {
+            "clone" => {
+                let c = self.m.clone();
+                let eq = self.m == c;
+                self.m = c;
+                Some(json!({"op":"clone","eq":[eq]}))
+            }
+            _ => None,
+        }
+    }
 }
 
 struct Easy {
     m: EasyHashMap<HK, u32>,
     p: String,
+    default: Option<u32>,
+    init: Vec<(u32, u32)>,
 }
 impl Easy {
     fn k(&self, id: u32) -> HK {
         HK { id, h: hash_of(&self.p, id) }
     }
+    /// retain with a predicate named in the event; `seen` = what the predicate was shown
+    fn retain(&mut self, pk: &str, a: u32, b: u32, mutate: bool) -> Value {
+        let mut seen: Vec<(u32, u32)> = vec![];
+        let pk_s = pk.to_string();
+        self.m.retain(|k, v| {
+            seen.push((k.id, *v));
+            let keep = match pk_s.as_str() {
+                "kmod" => k.id % a != b,
+                "vlt" => *v < a,
+                "all" => true,
+                _ => false,
+            };
+            if keep && mutate {
+                *v += 1;
+            }
+            keep
+        });
+        json!({"op":"retain","pk":pk,"a":a,"b":b,"mut":mutate,"seen":pairs(&seen)})
+    }
 }
+const LOAD_FACTORS: &[f64] = &[0.0, 0.1, 0.5, 0.75, 0.95, 1.0, 7.0, -1.0];
 impl Subj for Easy {
     fn insert(&mut self, _k: u32, _v: u32) -> Option<Result<Option<u32>, ()>> {
         None
@@ -311,6 +560,9 @@ impl Subj for Easy {
     fn len(&self) -> usize {
         self.m.len()
     }
+    fn is_empty(&self) -> Option<bool> {
+        Some(self.m.is_empty())
+    }
     fn iter(&self) -> Option<Vec<(u32, u32)>> {
         None
     }
@@ -318,11 +570,120 @@ impl Subj for Easy {
         self.m.clear();
         true
     }
+    fn initial(&self) -> Option<Value> {
+        if self.init.is_empty() {
+            None
+        } else {
+            Some(json!({"op":"extend","via":"from_iter","kv":pairs(&self.init)}))
+        }
+    }
+    fn extras(&self) -> Vec<&'static str> {
+        let mut v = vec![
+            "get_or_insert",
+            "get_or_insert_with",
+            "retain_kmod",
+            "retain_vlt",
+            "retain_mut",
+            "extend",
+            "reserve",
+            "try_reserve",
+            "shrink_to_fit",
+            "set_auto_grow",
+            "set_max_load_factor",
+            "retain_all",
+        ];
+        if self.default.is_some() {
+            v.push("get_or_default");
+        }
+        v
+    }
+    fn maint(&self) -> Vec<&'static str> {
+        vec!["reserve", "try_reserve", "shrink_to_fit", "set_auto_grow", "set_max_load_factor", "retain_all"]
+    }
+    fn extra(&mut self, name: &str, x: &XArgs) -> Option<Value> {
+        Some(match name {
+            "get_or_default" => {
+                let d = self.default?;
+                let r = *self.m.get_or_default(&self.k(x.k));
+                json!({"op":"get_or_default","k":x.k,"d":d,"r":r})
+            }
+            "get_or_insert" => {
+                let k = self.k(x.k);
+                match self.m.get_or_insert(k, x.v) {
+                    Ok(r) => {
+                        let seen = *r;
+                        // every second call only looks through the reference
+                        let w = if x.n % 2 == 0 { x.w } else { seen };
+                        *r = w;
+                        json!({"op":"get_or_insert","via":"get_or_insert","k":x.k,"v":x.v,"w":w,"ok":true,"r":seen,"called":[]})
+                    }
+                    Err(_) => json!({"op":"get_or_insert","via":"get_or_insert","k":x.k,"v":x.v,"w":x.w,"ok":false,"r":0,"called":[]}),
+                }
+            }
+            "get_or_insert_with" => {
+                let k = self.k(x.k);
+                let called = Cell::new(false);
+                let v = x.v;
+                match self.m.get_or_insert_with(k, || {
+                    called.set(true);
+                    v
+                }) {
+                    Ok(r) => {
+                        let seen = *r;
+                        let w = if x.n % 2 == 0 { x.w } else { seen };
+                        *r = w;
+                        json!({"op":"get_or_insert","via":"get_or_insert_with","k":x.k,"v":x.v,"w":w,"ok":true,"r":seen,"called":[called.get()]})
+                    }
+                    Err(_) => json!({"op":"get_or_insert","via":"get_or_insert_with","k":x.k,"v":x.v,"w":x.w,"ok":false,"r":0,"called":[called.get()]}),
+                }
+            }
+            "retain_kmod" => {
+                let a = 2 + (x.n % 4) as u32;
+                self.retain("kmod", a, x.k % a, false)
+            }
+            "retain_vlt" => self.retain("vlt", x.v, 0, false),
+            "retain_mut" => {
+                let a = 2 + (x.n % 3) as u32;
+                self.retain("kmod", a, x.k % a, true)
+            }
+            "retain_all" => self.retain("all", 0, 0, false),
+            "extend" => {
+                let items: Vec<(HK, u32)> = x.kv.iter().map(|&(k, v)| (self.k(k), v)).collect();
+                if x.n % 2 == 0 {
+                    self.m.extend(items);
+                    json!({"op":"extend","via":"extend","kv":pairs(&x.kv)})
+                } else {
+                    std::iter::Extend::extend(&mut self.m, items);
+                    json!({"op":"extend","via":"Extend::extend","kv":pairs(&x.kv)})
+                }
+            }
+            "reserve" => {
+                self.m.reserve(x.n);
+                maint_ev("reserve", json!({"n": x.n}))
+            }
+            "try_reserve" => {
+                let ok = self.m.try_reserve(x.n).is_ok();
+                maint_ev("try_reserve", json!({"n": x.n, "ok": ok}))
+            }
+            "shrink_to_fit" => {
+                self.m.shrink_to_fit();
+                maint_ev("shrink_to_fit", json!({}))
+            }
+            "set_auto_grow" => {
+                let on = x.n % 2 == 0;
+                self.m.set_auto_grow(on);
+                maint_ev("set_auto_grow", json!({"on": on}))
+            }
+            "set_max_load_factor" => {
+                let f = LOAD_FACTORS[x.n % LOAD_FACTORS.len()];
+                self.m.set_max_load_factor(f);
+                maint_ev("set_max_load_factor", json!({"permille": (f * 1000.0) as i64}))
+            }
+            _ => return None,
+        })
+    }
 }
 
-struct StrMap {
-    m: HashStrMap<u32>,
-}
 fn skey(id: u32) -> String {
     match id % 5 {
         0 => format!("k{id}"),
@@ -332,36 +693,117 @@ fn skey(id: u32) -> String {
         _ => format!("{}{}", "x".repeat((id % 40) as usize), id),
     }
 }
+/// projection of a string key back to its id through the (injective) skey table: the id is the
+/// trailing decimal number; a string that is not in the table projects to a key no run uses
+fn skey_id(s: &str) -> u32 {
+    let digits: String = s.chars().rev().take_while(|c| c.is_ascii_digit()).collect::<Vec<_>>().into_iter().rev().collect();
+    match digits.parse::<u32>() {
+        Ok(id) if skey(id) == s => id,
+        _ => 999_999_999,
+    }
+}
+
+struct StrMap {
+    m: HashStrMap<u32>,
+    /// go through the twins of insert / get / contains_key / clear
+    twins: bool,
+    n: Cell<u32>,
+    last: Cell<Option<&'static str>>,
+}
+impl StrMap {
+    fn tick(&self) -> u32 {
+        let n = self.n.get();
+        self.n.set(n + 1);
+        n
+    }
+}
 impl Subj for StrMap {
     fn insert(&mut self, k: u32, v: u32) -> Option<Result<Option<u32>, ()>> {
-        Some(self.m.insert(&skey(k), v).map_err(|_| ()))
+        let key = skey(k);
+        if !self.twins {
+            return Some(self.m.insert(&key, v).map_err(|_| ()));
+        }
+        Some(match self.tick() % 3 {
+            0 => {
+                self.last.set(Some("insert_string"));
+                self.m.insert_string(key, v).map_err(|_| ())
+            }
+            1 => {
+                self.last.set(Some("insert_fast_str"));
+                self.m.insert_fast_str(FastStr::from_string(&key), v).map_err(|_| ())
+            }
+            _ => {
+                self.last.set(Some("insert"));
+                self.m.insert(&key, v).map_err(|_| ())
+            }
+        })
     }
     fn get(&self, k: u32) -> Option<u32> {
-        self.m.get(&skey(k)).copied()
+        let key = skey(k);
+        if self.twins {
+            self.last.set(Some("get_by_fast_str"));
+            self.m.get_by_fast_str(&FastStr::from_string(&key)).copied()
+        } else {
+            self.m.get(&key).copied()
+        }
     }
     fn get_mut(&mut self, k: u32, newv: u32) -> Option<Option<u32>> {
+        self.last.set(None);
         Some(self.m.get_mut(&skey(k)).map(|r| std::mem::replace(r, newv)))
     }
     fn remove(&mut self, k: u32) -> Result<Option<u32>, ()> {
+        self.last.set(None);
         Ok(self.m.remove(&skey(k)))
     }
     fn contains(&self, k: u32) -> bool {
-        self.m.contains_key(&skey(k))
+        if self.twins {
+            self.last.set(Some("is_interned"));
+            self.m.is_interned(&skey(k))
+        } else {
+            self.m.contains_key(&skey(k))
+        }
     }
     fn len(&self) -> usize {
         self.m.len()
     }
+    fn is_empty(&self) -> Option<bool> {
+        Some(self.m.is_empty())
+    }
     fn iter(&self) -> Option<Vec<(u32, u32)>> {
-        // keys are projected back to ids through the (injective) skey table of this run
-        None
+        Some(self.m.iter().map(|(k, v)| (skey_id(k), *v)).collect())
     }
     fn clear(&mut self) -> bool {
-        self.m.clear();
+        if self.twins {
+            self.last.set(Some("clear_all"));
+            self.m.clear_all();
+        } else {
+            self.m.clear();
+        }
         true
+    }
+    fn via(&self) -> Option<&'static str> {
+        self.last.get()
+    }
+    fn extras(&self) -> Vec<&'static str> {
+        vec!["shrink_to_fit", "keys", "values"]
+    }
+    fn maint(&self) -> Vec<&'static str> {
+        vec!["shrink_to_fit"]
+    }
+    fn extra(&mut self, name: &str, _x: &XArgs) -> Option<Value> {
+        Some(match name {
+            "shrink_to_fit" => {
+                self.m.shrink_to_fit();
+                maint_ev("shrink_to_fit", json!({}))
+            }
+            "keys" => json!({"op":"keys","r":self.m.keys().map(|k| skey_id(k)).collect::<Vec<u32>>()}),
+            "values" => json!({"op":"values","r":self.m.values().copied().collect::<Vec<u32>>()}),
+            _ => return None,
+        })
     }
 }
 
-/// string keys for ZiporaHashMap::string_optimized
+/// string keys for ZiporaHashMap (string_optimized preset; default preset)
 struct ZhmStr {
     m: ZiporaHashMap<String, u32, RandomState>,
 }
@@ -384,8 +826,11 @@ impl Subj for ZhmStr {
     fn len(&self) -> usize {
         self.m.len()
     }
+    fn is_empty(&self) -> Option<bool> {
+        Some(self.m.is_empty())
+    }
     fn iter(&self) -> Option<Vec<(u32, u32)>> {
-        None
+        Some(self.m.iter().map(|(k, v)| (skey_id(k), *v)).collect())
     }
     fn clear(&mut self) -> bool {
         self.m.clear();
@@ -433,7 +878,70 @@ fn subjects() -> Vec<String> {
     v.push("easy:builder_cap2@random".into());
     v.push("hashstr:new".into());
     v.push("hashstr:with_capacity_1".into());
+    // ---- coverage round: library hash functions as the caller's hash, every public config field at
+    // its extremes, non-power-of-two capacities, twins, constructors
+    v.push("zhm:default@libmix".into());
+    v.push("zhm:default@libbucket".into());
+    v.push("zhm:default@libfaststr".into());
+    v.push("zhm:default_str".into());
+    v.push("zhm:std_cap0_chain@zeromax".into());
+    v.push("zhm:std_cap17_cuckoo@low2".into());
+    v.push("zhm:std_cap24_hopscotch@collide".into());
+    v.push("zhm:std_cap100_linear@random".into());
+    v.push("zhm:robin_extreme@ident".into());
+    v.push("zhm:pool_cap1@max".into());
+    v.push("zhm:with_capacity_0@random".into());
+    v.push("zhm:with_capacity_100@zeromax".into());
+    v.push("zhm:default_clone@random".into());
+    v.push("zhm:with_capacity_100_clone@collide".into());
+    v.push("gold32:lf_low_cap0@random".into());
+    v.push("gold32:lf_high_cap1@low2".into());
+    v.push("gold32:lf_nan_cap1000@random".into());
+    v.push("gold32:fast_default@random".into());
+    v.push("gold64:gc_nofreelist@collide".into());
+    v.push("gold32:toggle_all@random".into());
+    v.push("idx:with_capacity_0@random".into());
+    v.push("idx:with_capacity_100@low2".into());
+    v.push("small:u8_fast".into());
+    v.push("easy:with_default@random".into());
+    v.push("easy:builder_default_lf95_nogrow@collide".into());
+    v.push("easy:builder_cap100_lf10@random".into());
+    v.push("easy:from_iter@random".into());
+    v.push("hashstr:twins".into());
     v
+}
+
+/// subjects of the coverage round that share their code path with an older subject: they skip the
+/// 1500-key regime of the random driver and take every 4th TLC-generated history
+fn is_light(name: &str) -> bool {
+    const LIGHT: &[&str] = &[
+        "zhm:default@libmix",
+        "zhm:default@libbucket",
+        "zhm:default@libfaststr",
+        "zhm:std_cap0_chain@zeromax",
+        "zhm:std_cap17_cuckoo@low2",
+        "zhm:std_cap24_hopscotch@collide",
+        "zhm:robin_extreme@ident",
+        "zhm:pool_cap1@max",
+        "zhm:with_capacity_0@random",
+        "zhm:default_clone@random",
+        "zhm:with_capacity_100_clone@collide",
+        "gold32:lf_low_cap0@random",
+        "gold32:lf_high_cap1@low2",
+        "gold32:lf_nan_cap1000@random",
+        "gold64:gc_nofreelist@collide",
+        "idx:with_capacity_0@random",
+        "easy:builder_default_lf95_nogrow@collide",
+        "easy:builder_cap100_lf10@random",
+        "easy:from_iter@random",
+        "zhm:default_str",
+        "zhm:std_cap100_linear@random",
+        "gold32:fast_default@random",
+        "idx:with_capacity_100@low2",
+        "small:u8_fast",
+        "easy:with_default@random",
+    ];
+    LIGHT.contains(&name)
 }
 
 fn fam_of(name: &str) -> String {
@@ -443,30 +951,122 @@ fn variant_of(name: &str) -> String {
     name.split(':').nth(1).unwrap_or("").split('@').next().unwrap_or("").to_string()
 }
 
+fn zhm_cfg(storage_cap: usize, growth: f64, hs: HashStrategy, os: OptimizationStrategy, cap: usize, lf: f64) -> ZiporaHashMapConfig {
+    ZiporaHashMapConfig {
+        hash_strategy: hs,
+        storage_strategy: StorageStrategy::Standard { initial_capacity: storage_cap, growth_factor: growth },
+        optimization_strategy: os,
+        initial_capacity: cap,
+        load_factor: lf,
+    }
+}
+
 fn make(name: &str) -> Option<Box<dyn Subj>> {
     let (base, prof) = match name.split_once('@') {
         Some((b, p)) => (b, p.to_string()),
         None => (name, "ident".to_string()),
     };
     let (fam, var) = base.split_once(':')?;
-    let pool = || {
-        zipora::memory::SecureMemoryPool::new(zipora::memory::SecurePoolConfig::small_secure()).ok()
+    let pool = || zipora::memory::SecureMemoryPool::new(zipora::memory::SecurePoolConfig::small_secure()).ok();
+    let zp = |cfg: ZiporaHashMapConfig, prof: String, clone: bool| -> Option<Box<dyn Subj>> {
+        let cloner: Option<fn(&ZiporaHashMap<HK, u32, PassThrough>) -> ZiporaHashMap<HK, u32, PassThrough>> = if clone { Some(|m| m.clone()) } else { None };
+        Some(Box::new(Zhm { m: ZiporaHashMap::<HK, u32, PassThrough>::with_config_and_hasher(cfg, PassThrough).ok()?, p: prof, cloner }))
     };
     Some(match fam {
         "zhm" => match var {
-            "default" => Box::new(Zhm { m: ZiporaHashMap::<HK, u32, PassThrough>::with_config_and_hasher(ZiporaHashMapConfig::default(), PassThrough).ok()?, p: prof }),
-            "default_random_state" => Box::new(Zhm { m: ZiporaHashMap::<HK, u32, RandomState>::new().ok()?, p: prof }),
-            "with_capacity_4" => Box::new(Zhm { m: ZiporaHashMap::<HK, u32, PassThrough>::with_capacity(4).ok()?, p: prof }),
-            "cache_optimized" => Box::new(Zhm { m: ZiporaHashMap::<HK, u32, PassThrough>::with_config_and_hasher(ZiporaHashMapConfig::cache_optimized(), PassThrough).ok()?, p: prof }),
-            "small_inline_4" => Box::new(Zhm { m: ZiporaHashMap::<HK, u32, PassThrough>::with_config_and_hasher(ZiporaHashMapConfig::small_inline(4), PassThrough).ok()?, p: prof }),
-            "small_inline_16" => Box::new(Zhm { m: ZiporaHashMap::<HK, u32, PassThrough>::with_config_and_hasher(ZiporaHashMapConfig::small_inline(16), PassThrough).ok()?, p: prof }),
-            "concurrent_pool" => Box::new(Zhm { m: ZiporaHashMap::<HK, u32, PassThrough>::with_config_and_hasher(ZiporaHashMapConfig::concurrent_pool(pool()?), PassThrough).ok()?, p: prof }),
+            "default" => return zp(ZiporaHashMapConfig::default(), prof, false),
+            "default_clone" => return zp(ZiporaHashMapConfig::default(), prof, true),
+            "default_random_state" => Box::new(Zhm { m: ZiporaHashMap::<HK, u32, RandomState>::new().ok()?, p: prof, cloner: None }),
+            "with_capacity_4" => Box::new(Zhm { m: ZiporaHashMap::<HK, u32, PassThrough>::with_capacity(4).ok()?, p: prof, cloner: None }),
+            "with_capacity_0" => Box::new(Zhm { m: ZiporaHashMap::<HK, u32, PassThrough>::with_capacity(0).ok()?, p: prof, cloner: None }),
+            "with_capacity_100" => Box::new(Zhm { m: ZiporaHashMap::<HK, u32, PassThrough>::with_capacity(100).ok()?, p: prof, cloner: None }),
+            "with_capacity_100_clone" => Box::new(Zhm { m: ZiporaHashMap::<HK, u32, PassThrough>::with_capacity(100).ok()?, p: prof, cloner: Some(|m| m.clone()) }),
+            "cache_optimized" => return zp(ZiporaHashMapConfig::cache_optimized(), prof, false),
+            "small_inline_4" => return zp(ZiporaHashMapConfig::small_inline(4), prof, false),
+            "small_inline_16" => return zp(ZiporaHashMapConfig::small_inline(16), prof, false),
+            "concurrent_pool" => return zp(ZiporaHashMapConfig::concurrent_pool(pool()?), prof, false),
+            "pool_cap1" => {
+                let mut c = ZiporaHashMapConfig::concurrent_pool(pool()?);
+                c.initial_capacity = 1;
+                c.load_factor = 1.0;
+                if let StorageStrategy::PoolAllocated { chunk_size, .. } = &mut c.storage_strategy {
+                    *chunk_size = 1;
+                }
+                c.hash_strategy = HashStrategy::Hopscotch { neighborhood_size: 0, displacement_threshold: 0 };
+                return zp(c, prof, false);
+            }
+            "std_cap0_chain" => {
+                return zp(
+                    zhm_cfg(0, 1.0, HashStrategy::Chaining { load_factor: 0.01, hash_cache: true, compact_links: true }, OptimizationStrategy::Standard, 0, 0.01),
+                    prof,
+                    false,
+                )
+            }
+            "std_cap17_cuckoo" => {
+                return zp(
+                    zhm_cfg(
+                        17,
+                        16.0,
+                        HashStrategy::Cuckoo { num_hash_functions: 255, max_evictions: 0 },
+                        OptimizationStrategy::SimdAccelerated { string_ops: false, bulk_ops: false, hash_computation: false },
+                        17,
+                        0.99,
+                    ),
+                    prof,
+                    false,
+                )
+            }
+            "std_cap24_hopscotch" => {
+                return zp(
+                    zhm_cfg(
+                        24,
+                        1.5,
+                        HashStrategy::Hopscotch { neighborhood_size: 1, displacement_threshold: u16::MAX },
+                        OptimizationStrategy::HighPerformance { simd_enabled: false, cache_optimized: false, prefetch_enabled: false, numa_aware: false },
+                        24,
+                        0.5,
+                    ),
+                    prof,
+                    false,
+                )
+            }
+            "std_cap100_linear" => {
+                return zp(
+                    zhm_cfg(
+                        100,
+                        2.0,
+                        HashStrategy::LinearProbing { max_probe_distance: 0, cache_aligned: false },
+                        OptimizationStrategy::CacheAware { prefetch_distance: 0, hot_cold_separation: false, access_pattern_tracking: false },
+                        100,
+                        0.5,
+                    ),
+                    prof,
+                    false,
+                )
+            }
+            "robin_extreme" => {
+                return zp(
+                    zhm_cfg(
+                        16,
+                        2.0,
+                        HashStrategy::RobinHood { max_probe_distance: 0, variance_reduction: false, backward_shift: false },
+                        OptimizationStrategy::SimdAccelerated { string_ops: true, bulk_ops: true, hash_computation: true },
+                        usize::MAX / 2,
+                        f64::NAN,
+                    ),
+                    prof,
+                    false,
+                )
+            }
             "string_optimized" => Box::new(ZhmStr { m: ZiporaHashMap::with_config(ZiporaHashMapConfig::string_optimized()).ok()? }),
+            "default_str" => Box::new(ZhmStr { m: ZiporaHashMap::new().ok()? }),
             _ => return None,
         },
         "gold32" | "gold64" => {
             let mut strat = None;
             let mut revoke = false;
+            let mut fast_default = false;
+            let mut toggle = false;
             let cfg = match var {
                 "default" => GoldHashMapConfig::default(),
                 "small" => GoldHashMapConfig::small(),
@@ -488,6 +1088,46 @@ fn make(name: &str) -> Option<Box<dyn Subj>> {
                     c.load_factor = 0.95;
                     c
                 }
+                "lf_low_cap0" => GoldHashMapConfig {
+                    initial_capacity: 0,
+                    load_factor: 0.05,
+                    enable_hash_cache: true,
+                    enable_auto_gc: true,
+                    enable_freelist_reuse: false,
+                    default_iteration_strategy: IterationStrategy::Safe,
+                },
+                "lf_high_cap1" => GoldHashMapConfig {
+                    initial_capacity: 1,
+                    load_factor: 0.999,
+                    enable_hash_cache: false,
+                    enable_auto_gc: false,
+                    enable_freelist_reuse: true,
+                    default_iteration_strategy: IterationStrategy::Safe,
+                },
+                "lf_nan_cap1000" => GoldHashMapConfig {
+                    initial_capacity: 1000,
+                    load_factor: f32::NAN,
+                    enable_hash_cache: true,
+                    enable_auto_gc: false,
+                    enable_freelist_reuse: true,
+                    default_iteration_strategy: IterationStrategy::Safe,
+                },
+                "fast_default" => {
+                    fast_default = true;
+                    GoldHashMapConfig { default_iteration_strategy: IterationStrategy::Fast, ..GoldHashMapConfig::default() }
+                }
+                "gc_nofreelist" => GoldHashMapConfig {
+                    initial_capacity: 5,
+                    load_factor: 0.7,
+                    enable_hash_cache: true,
+                    enable_auto_gc: true,
+                    enable_freelist_reuse: false,
+                    default_iteration_strategy: IterationStrategy::Safe,
+                },
+                "toggle_all" => {
+                    toggle = true;
+                    GoldHashMapConfig::default()
+                }
                 _ => return None,
             };
             if fam == "gold32" {
@@ -495,31 +1135,49 @@ fn make(name: &str) -> Option<Box<dyn Subj>> {
                 if var == "toggle_hash_cache" {
                     m.set_hash_caching(true);
                 }
-                Box::new(Gold { m, p: prof, strat, revoke })
+                Box::new(Gold { m, p: prof, strat, revoke, fast_default, toggle })
             } else {
-                Box::new(Gold { m: GoldHashMap::<HK, u32, u64>::with_config(cfg), p: prof, strat, revoke })
+                Box::new(Gold { m: GoldHashMap::<HK, u32, u64>::with_config(cfg), p: prof, strat, revoke, fast_default, toggle })
             }
         }
         "idx" => match var {
             "new" => Box::new(Idx { m: GoldHashIdx::new(), p: prof }),
             "with_pool" => Box::new(Idx { m: GoldHashIdx::with_pool(4, Arc::clone(&pool()?)), p: prof }),
+            "with_capacity_0" => Box::new(Idx { m: GoldHashIdx::with_capacity(0), p: prof }),
+            "with_capacity_100" => Box::new(Idx { m: GoldHashIdx::with_capacity(100), p: prof }),
             _ => return None,
         },
         "small" => match var {
-            "u32" => Box::new(Small::<u32> { m: SmallMap::new(), conv: |x| x, back: |k| *k }),
-            "u8" => Box::new(Small::<u8> { m: SmallMap::new(), conv: |x| x as u8, back: |k| *k as u32 }),
-            "u64" => Box::new(Small::<u64> { m: SmallMap::new(), conv: |x| (x as u64) << 33 | x as u64, back: |k| *k as u32 }),
-            "i32" => Box::new(Small::<i32> { m: SmallMap::new(), conv: |x| -(x as i32), back: |k| (-*k) as u32 }),
+            "u32" => Box::new(Small::<u32> { m: SmallMap::new(), conv: |x| x, back: |k| *k, fast: None }),
+            "u8" => Box::new(Small::<u8> { m: SmallMap::new(), conv: |x| x as u8, back: |k| *k as u32, fast: None }),
+            "u8_fast" => Box::new(Small::<u8> { m: SmallMap::new(), conv: |x| x as u8, back: |k| *k as u32, fast: Some(|m, k| m.get_fast(k).copied()) }),
+            "u64" => Box::new(Small::<u64> { m: SmallMap::new(), conv: |x| (x as u64) << 33 | x as u64, back: |k| *k as u32, fast: None }),
+            "i32" => Box::new(Small::<i32> { m: SmallMap::new(), conv: |x| -(x as i32), back: |k| (-*k) as u32, fast: None }),
             _ => return None,
         },
-        "easy" => match var {
-            "new" => Box::new(Easy { m: EasyHashMap::new(), p: prof }),
-            "builder_cap2" => Box::new(Easy { m: EasyHashMap::<HK, u32>::initial_capacity(2).auto_grow(true).max_load_factor(0.5).build(), p: prof }),
-            _ => return None,
-        },
+        "easy" => {
+            let (m, default, init): (EasyHashMap<HK, u32>, Option<u32>, Vec<(u32, u32)>) = match var {
+                "new" => (EasyHashMap::new(), None, vec![]),
+                "builder_cap2" => (EasyHashMap::<HK, u32>::initial_capacity(2).auto_grow(true).max_load_factor(0.5).build(), None, vec![]),
+                "with_default" => (EasyHashMap::with_default(77_777), Some(77_777), vec![]),
+                "builder_default_lf95_nogrow" => {
+                    (EasyHashMap::<HK, u32>::with_default_value(5).with_capacity(16).auto_grow(false).max_load_factor(7.0).build(), Some(5), vec![])
+                }
+                "builder_cap100_lf10" => (EasyHashMap::<HK, u32>::initial_capacity(100).max_load_factor(0.0).build(), None, vec![]),
+                "from_iter" => {
+                    let init = vec![(0u32, 1u32), (1, 2), (0, 3), (2, 4)];
+                    let p = prof.clone();
+                    let m: EasyHashMap<HK, u32> = init.iter().map(|&(k, v)| (HK { id: k, h: hash_of(&p, k) }, v)).collect();
+                    (m, None, init)
+                }
+                _ => return None,
+            };
+            Box::new(Easy { m, p: prof, default, init })
+        }
         "hashstr" => match var {
-            "new" => Box::new(StrMap { m: HashStrMap::new() }),
-            "with_capacity_1" => Box::new(StrMap { m: HashStrMap::with_capacity(1) }),
+            "new" => Box::new(StrMap { m: HashStrMap::new(), twins: false, n: Cell::new(0), last: Cell::new(None) }),
+            "with_capacity_1" => Box::new(StrMap { m: HashStrMap::with_capacity(1), twins: false, n: Cell::new(0), last: Cell::new(None) }),
+            "twins" => Box::new(StrMap { m: HashStrMap::default(), twins: true, n: Cell::new(0), last: Cell::new(None) }),
             _ => return None,
         },
         _ => return None,
@@ -528,17 +1186,12 @@ fn make(name: &str) -> Option<Box<dyn Subj>> {
 
 // ---------------------------------------------------------------- executing operations
 
-fn o(x: Option<u32>) -> Value {
-    opt(x)
-}
-fn pairs(v: &[(u32, u32)]) -> Value {
-    Value::Array(v.iter().map(|(k, x)| json!([k, x])).collect())
-}
-
 /// Execute one operation on the subject and return the event to log.  A panic is data.
-fn exec(s: &mut Box<dyn Subj>, op: &str, k: u32, v: u32, universe: &[u32]) -> Option<Value> {
+/// `op` is one of the listed operations or `x:<name>` for an additional operation of the subject.
+fn exec(s: &mut Box<dyn Subj>, op: &str, x: &XArgs, universe: &[u32]) -> Option<Value> {
+    let (k, v) = (x.k, x.v);
     let r = guard(|| -> Option<Value> {
-        Some(match op {
+        let mut e = match op {
             "insert" => match s.insert(k, v) {
                 Some(Ok(r)) => json!({"op":"insert","k":k,"v":v,"ok":true,"r":o(r)}),
                 Some(Err(())) => json!({"op":"insert","k":k,"v":v,"ok":false,"r":[]}),
@@ -547,7 +1200,7 @@ fn exec(s: &mut Box<dyn Subj>, op: &str, k: u32, v: u32, universe: &[u32]) -> Op
                     json!({"op":"put","k":k,"v":v})
                 }
             },
-            "get" => json!({"op":"get","k":k,"r":o(s.get(k))}),
+            "get" => json!({"op":"get","k":k,"r":o(s.get_op(k))}),
             "get_mut" => match s.get_mut(k, v) {
                 Some(r) => json!({"op":"get_mut","k":k,"v":v,"r":o(r)}),
                 None => return None,
@@ -558,6 +1211,7 @@ fn exec(s: &mut Box<dyn Subj>, op: &str, k: u32, v: u32, universe: &[u32]) -> Op
             },
             "contains" => json!({"op":"contains","k":k,"r":s.contains(k)}),
             "len" => json!({"op":"len","r":s.len()}),
+            "is_empty" => json!({"op":"is_empty","r":s.is_empty()?}),
             "iter" => match s.iter() {
                 Some(it) => json!({"op":"iter","r":pairs(&it)}),
                 None => return None,
@@ -569,23 +1223,77 @@ fn exec(s: &mut Box<dyn Subj>, op: &str, k: u32, v: u32, universe: &[u32]) -> Op
                     return None;
                 }
             }
-            "extra" => {
-                s.extra();
-                json!({"op":"maintenance"})
-            }
             "probe" => {
                 // full observable projection: get and contains of every key of the universe, len, iter
                 let gets: Vec<Value> = universe.iter().map(|&x| json!([x, o(s.get(x)), s.contains(x)])).collect();
                 let it = s.iter();
-                json!({"op":"probe","get":gets,"len":s.len(),"has_iter":it.is_some(),"iter":pairs(&it.unwrap_or_default())})
+                let mut p = json!({"op":"probe","get":gets,"len":s.len(),"has_iter":it.is_some(),"iter":pairs(&it.unwrap_or_default())});
+                if let Some(b) = s.is_empty() {
+                    p["empty"] = json!(b);
+                }
+                return Some(p);
             }
-            _ => return None,
-        })
+            _ => match op.strip_prefix("x:") {
+                Some(name) => return s.extra(name, x),
+                None => return None,
+            },
+        };
+        if matches!(op, "insert" | "get" | "contains" | "clear") {
+            if let Some(via) = s.via() {
+                e["via"] = json!(via);
+            }
+        }
+        Some(e)
     });
     match r {
         Ok(x) => x,
-        Err(msg) => Some(json!({"op":"panic","in":op,"k":k,"v":v,"msg":msg.chars().take(120).collect::<String>()})),
+        Err(msg) => Some(json!({"op":"panic","in":op.strip_prefix("x:").unwrap_or(op),"k":k,"v":v,"msg":msg.chars().take(120).collect::<String>()})),
     }
+}
+
+/// an explicit "not yet implemented" panic of a read-only call leaves the object intact
+fn benign_panic(e: &Value, op: &str) -> bool {
+    e["msg"].as_str().map_or(false, |m| m.contains("not yet implemented")) && matches!(op, "iter" | "probe" | "x:clone")
+}
+
+fn draw(rng: &mut Rng, uni: u32) -> XArgs {
+    let k = rng.below(uni as u64) as u32;
+    let v = rng.below(1000) as u32;
+    let w = rng.below(1000) as u32;
+    let nks = rng.range(1, 6) as usize;
+    let ks = (0..nks).map(|_| rng.below(uni as u64) as u32).collect();
+    let nkv = rng.below(7) as usize;
+    // a small key window so that batches hit the same key twice
+    let base = rng.below(uni as u64) as u32;
+    let kv = (0..nkv).map(|_| ((base + rng.below(4) as u32) % uni, rng.below(1000) as u32)).collect();
+    let n = *rng.pick(&[0usize, 1, 2, 3, 5, 7, 16, 17, 33, 100, 1000]);
+    XArgs { k, v, w, ks, kv, n }
+}
+
+/// additional operations whose events grow with the map: done rarely on the large key universe
+fn is_bulky(name: &str) -> bool {
+    name.starts_with("iter") || name.starts_with("retain") || matches!(name, "keys" | "values" | "clone")
+}
+
+struct Counters {
+    nev: usize,
+    panics: usize,
+    refused: usize,
+}
+
+/// log one event; returns false when the run must stop (the object may be inconsistent after a panic)
+fn emit(tr: &mut Tracer, c: &mut Counters, op: &str, e: Value) -> bool {
+    let mut alive = true;
+    if e["op"] == "panic" {
+        c.panics += 1;
+        alive = benign_panic(&e, op);
+    }
+    if e["ok"] == json!(false) {
+        c.refused += 1;
+    }
+    tr.ev(e);
+    c.nev += 1;
+    alive
 }
 
 // ---------------------------------------------------------------- B1: random driver
@@ -603,10 +1311,14 @@ fn drive(a: &Args) {
         vec![(4, 40, 6), (12, 150, 4), (40, 300, 2), (1500, 2500, 1)]
     };
     for name in &subs {
-        let mut nev = 0usize;
-        let mut panics = 0usize;
-        let mut refused = 0usize;
+        let mut c = Counters { nev: 0, panics: 0, refused: 0 };
+        let mut extras_done = std::collections::BTreeSet::new();
+        // every subject starts a new trace file: a subject with a known finding is re-validated alone
+        tr.max_events = 0;
         for (ri, &(uni, steps, runs)) in regimes.iter().enumerate() {
+            if uni > 40 && is_light(name) && !a.thorough() {
+                continue;
+            }
             for run in 0..runs {
                 let mut rng = rng0.derive(&format!("{name}/{ri}/{run}"));
                 let mut s = match guard(|| make(name)) {
@@ -617,55 +1329,65 @@ fn drive(a: &Args) {
                     }
                 };
                 // u8-keyed subject: ids must stay below 256
-                let uni = if name == "small:u8" { uni.min(200) } else { uni };
+                let uni = if name.starts_with("small:u8") { uni.min(200) } else { uni };
                 let universe: Vec<u32> = (0..uni).collect();
                 let small_uni: Vec<u32> = if uni <= 40 { universe.clone() } else { vec![] };
                 tr.reset("map", name, json!({"universe": uni, "regime": ri, "seed": a.seed, "fam": fam_of(name), "variant": variant_of(name)}));
+                tr.max_events = 6000;
+                if let Some(e) = s.initial() {
+                    tr.ev(e);
+                }
+                let extras = s.extras();
                 let mut dead = false;
                 for step in 0..steps {
-                    let k = rng.below(uni as u64) as u32;
-                    let v = rng.below(1000) as u32;
-                    let c = rng.below(100);
-                    let op = match c {
-                        0..=39 => "insert",
-                        40..=59 => "remove",
-                        60..=69 => "get",
-                        70..=76 => "get_mut",
-                        77..=81 => "contains",
-                        82..=86 => "len",
-                        87..=90 => "iter",
-                        91 => "clear",
-                        92..=94 => "extra",
+                    let x = draw(&mut rng, uni);
+                    let cc = rng.below(100);
+                    let pick = rng.below(1 << 20) as usize;
+                    let mut op = match cc {
+                        0..=36 => "insert",
+                        37..=56 => "remove",
+                        57..=66 => "get",
+                        67..=73 => "get_mut",
+                        74..=78 => "contains",
+                        79..=82 => "len",
+                        83 => "is_empty",
+                        84..=87 => "iter",
+                        88 => "clear",
+                        89..=95 => "extra",
                         _ => "probe",
-                    };
+                    }
+                    .to_string();
+                    if op == "extra" {
+                        if extras.is_empty() {
+                            continue;
+                        }
+                        let n = extras[pick % extras.len()];
+                        if uni > 40 && is_bulky(n) && step % 250 != 249 {
+                            continue;
+                        }
+                        op = format!("x:{n}");
+                    }
                     // iteration / probes of the big regime are expensive for TLC: do them rarely
                     if uni > 40 && (op == "iter" || op == "probe" || op == "clear") && step % 500 != 499 {
                         continue;
                     }
-                    if let Some(e) = exec(&mut s, op, k, v, &small_uni) {
-                        if e["op"] == "panic" {
-                            panics += 1;
-                            // an explicit "not yet implemented" panic of a read-only call leaves the
-                            // object intact; any other panic may not
-                            let benign = e["msg"].as_str().map_or(false, |m| m.contains("not yet implemented")) && matches!(op, "iter" | "probe");
-                            dead = !benign;
+                    if let Some(e) = exec(&mut s, &op, &x, &small_uni) {
+                        if let Some(n) = op.strip_prefix("x:") {
+                            extras_done.insert(n.to_string());
                         }
-                        if e["ok"] == json!(false) {
-                            refused += 1;
+                        if !emit(&mut tr, &mut c, &op, e) {
+                            dead = true;
+                            break;
                         }
-                        tr.ev(e);
-                        nev += 1;
-                    }
-                    if dead {
-                        break; // the object may be inconsistent after a panic
                     }
                 }
                 if !dead {
-                    if let Some(e) = exec(&mut s, "len", 0, 0, &small_uni) {
+                    let x = XArgs::default();
+                    if let Some(e) = exec(&mut s, "len", &x, &small_uni) {
                         tr.ev(e);
                     }
                     if uni <= 3000 {
-                        if let Some(e) = exec(&mut s, "iter", 0, 0, &small_uni) {
+                        if let Some(e) = exec(&mut s, "iter", &x, &small_uni) {
                             tr.ev(e);
                         }
                     }
@@ -676,11 +1398,233 @@ fn drive(a: &Args) {
                 }
             }
         }
-        per_subject.insert(name.clone(), json!({"events": nev, "panics": panics, "refused": refused}));
+        // scripted histories: thresholds of every storage, delete-everything-and-refill, tombstone chains
+        let sc = scenarios(a, name, &mut tr, &mut c);
+        per_subject.insert(name.clone(), json!({"events": c.nev, "panics": c.panics, "refused": c.refused, "scenario_runs": sc,
+            "extras_exercised": extras_done.into_iter().collect::<Vec<_>>()}));
     }
     tr.close();
     write_summary(&a.out, &json!({"mode":"drive","events":tr.total_events,"runs":tr.runs,
         "files":tr.files.iter().map(|p|p.display().to_string()).collect::<Vec<_>>(),"subjects":per_subject}));
+}
+
+// ---------------------------------------------------------------- scripted scenarios (input classes)
+
+/// map sizes at which the scripted histories take a full probe: one below / at / one above every
+/// growth trigger of the storages (ZiporaHashMap standard 16/32/64/128 and 2/4/8 for the masks of
+/// non-power-of-two capacities, GoldHashMap max_load 4/10/16/21/32/44/58/67/139, GoldHashIdx 12/24/48/96,
+/// SmallMap 8, EasyHashMap 12/48/96 and 8/32/64, std HashMap 3/7/14/28/56/112)
+const PROBE_SIZES: &[usize] = &[
+    1, 2, 3, 4, 5, 7, 8, 9, 10, 11, 12, 13, 14, 15, 16, 17, 18, 21, 22, 23, 24, 25, 28, 29, 31, 32, 33, 34, 44, 45, 46, 47, 48, 49, 56, 57, 58, 59, 63, 64, 65, 66, 67, 68, 95,
+    96, 97, 98, 112, 113, 127, 128, 129, 138, 139, 140, 141,
+];
+
+struct Script<'a> {
+    s: Box<dyn Subj>,
+    tr: &'a mut Tracer,
+    c: &'a mut Counters,
+    maint: Vec<&'static str>,
+    mi: usize,
+    dead: bool,
+}
+impl<'a> Script<'a> {
+    fn op(&mut self, op: &str, k: u32, v: u32, universe: &[u32]) {
+        if self.dead {
+            return;
+        }
+        let x = XArgs { k, v, w: v + 1, ks: vec![k], kv: vec![(k, v)], n: (k as usize) % 41 };
+        if let Some(e) = exec(&mut self.s, op, &x, universe) {
+            if !emit(self.tr, self.c, op, e) {
+                self.dead = true;
+            }
+        }
+    }
+    /// the next maintenance-like call of the subject (reserve, shrink_to_fit, revoke_deleted, clone, ...)
+    fn maintain(&mut self, k: u32) {
+        if self.maint.is_empty() {
+            return;
+        }
+        let name = format!("x:{}", self.maint[self.mi % self.maint.len()]);
+        self.mi += 1;
+        self.op(&name, k, 0, &[]);
+    }
+    fn probe(&mut self, lo: u32, hi: u32) {
+        let u: Vec<u32> = (lo..hi).collect();
+        self.op("probe", 0, 0, &u);
+    }
+}
+
+fn scenarios(a: &Args, name: &str, tr: &mut Tracer, c: &mut Counters) -> usize {
+    let val = |k: u32, round: u32| (k * 7 + round * 1000 + (a.seed as u32 % 97)) % 100_000;
+    let big = name.contains(":large");
+    let u8keys = name.starts_with("small:u8"); // ids must stay below 256
+    let n_fill: u32 = if a.thorough() && !u8keys { 300 } else { 141 };
+    let mut runs = 0;
+    let mut start = |tr: &mut Tracer, what: &str, uni: u32| -> Option<Box<dyn Subj>> {
+        let s = match guard(|| make(name)) {
+            Ok(Some(s)) => s,
+            _ => return None,
+        };
+        tr.reset("map", name, json!({"universe": uni, "scenario": what, "seed": a.seed, "fam": fam_of(name), "variant": variant_of(name)}));
+        if let Some(e) = s.initial() {
+            tr.ev(e);
+        }
+        runs += 1;
+        Some(s)
+    };
+    // ---- A: fill through every threshold, delete everything, refill, with maintenance calls in between
+    if let Some(s) = start(tr, "fill_drain_refill", n_fill + 2) {
+        let maint = s.maint();
+        let mut sc = Script { s, tr: &mut *tr, c: &mut *c, maint, mi: 0, dead: false };
+        let from_iter = sc.s.initial().is_some();
+        if from_iter {
+            for k in 0..3 {
+                sc.op("remove", k, 0, &[]);
+            }
+        }
+        for k in 0..n_fill {
+            sc.op("insert", k, val(k, 0), &[]);
+            if PROBE_SIZES.contains(&((k + 1) as usize)) {
+                sc.op("len", 0, 0, &[]);
+                sc.probe(0, k + 2);
+                sc.maintain(k);
+                sc.op("get", k, 0, &[]);
+                sc.op("get", 0, 0, &[]);
+            }
+        }
+        sc.maintain(0);
+        sc.probe(0, n_fill + 2);
+        for k in 0..n_fill {
+            sc.op("remove", k, 0, &[]);
+            let left = (n_fill - k - 1) as usize;
+            if PROBE_SIZES.contains(&left) && left % 2 == 0 {
+                sc.op("len", 0, 0, &[]);
+                sc.probe(k.saturating_sub(1), n_fill + 1);
+                sc.maintain(k);
+            }
+        }
+        sc.op("len", 0, 0, &[]);
+        sc.op("is_empty", 0, 0, &[]);
+        sc.probe(0, n_fill + 2);
+        sc.maintain(1);
+        for k in (0..n_fill).rev() {
+            sc.op("insert", k, val(k, 1), &[]);
+            let have = (n_fill - k) as usize;
+            if PROBE_SIZES.contains(&have) && have % 2 == 1 {
+                sc.op("len", 0, 0, &[]);
+                sc.probe(k.saturating_sub(1), n_fill + 1);
+            }
+        }
+        sc.probe(0, n_fill + 2);
+        for k in (0..n_fill).rev() {
+            sc.op("remove", k, 0, &[]);
+        }
+        sc.probe(0, n_fill + 2);
+        sc.op("clear", 0, 0, &[]);
+        for k in 0..20 {
+            sc.op("insert", k, val(k, 2), &[]);
+        }
+        sc.probe(0, 22);
+        if sc.dead {
+            std::mem::forget(sc.s);
+        }
+    }
+    // ---- B: sliding window at a growth trigger: every insert follows a delete (tombstone-saturated tables)
+    if let Some(s) = start(tr, "sliding_window", 200) {
+        let maint = s.maint();
+        let mut sc = Script { s, tr: &mut *tr, c: &mut *c, maint, mi: 0, dead: false };
+        let mut base = 0u32;
+        let windows: &[u32] = if u8keys || !a.thorough() { &[11, 16, 31] } else { &[11, 15, 16, 31, 47] };
+        for &w in windows {
+            for k in 0..w {
+                sc.op("insert", base + k, val(k, 3), &[]);
+            }
+            for t in 0..3 * w {
+                sc.op("remove", base + t, 0, &[]);
+                sc.op("insert", base + w + t, val(t, 4), &[]);
+                if t % (w / 2) == 0 {
+                    sc.op("len", 0, 0, &[]);
+                    sc.probe((base + t).saturating_sub(2), base + w + t + 3);
+                    if t % w == 0 {
+                        sc.maintain(t);
+                    }
+                }
+            }
+            // drain the window completely and go on with fresh keys
+            for t in 3 * w..4 * w {
+                sc.op("remove", base + t, 0, &[]);
+            }
+            sc.op("len", 0, 0, &[]);
+            base += 4 * w;
+        }
+        sc.probe(0, base.min(200));
+        if sc.dead {
+            std::mem::forget(sc.s);
+        }
+    }
+    // ---- C: a long chain of deleted entries in front of a live one, then reinsertion
+    if let Some(s) = start(tr, "tombstone_chain", 42) {
+        let maint = s.maint();
+        let mut sc = Script { s, tr: &mut *tr, c: &mut *c, maint, mi: 0, dead: false };
+        let n = 40u32;
+        for k in 0..n {
+            sc.op("insert", k, val(k, 5), &[]);
+        }
+        for k in 0..n - 1 {
+            sc.op("remove", k, 0, &[]);
+        }
+        sc.op("get", n - 1, 0, &[]);
+        sc.op("get_mut", n - 1, 4242, &[]);
+        sc.op("contains", 0, 0, &[]);
+        sc.probe(0, n + 2);
+        for k in 0..n - 1 {
+            sc.op("insert", k, val(k, 6), &[]);
+            if k % 8 == 0 {
+                sc.op("get", n - 1, 0, &[]);
+            }
+        }
+        sc.probe(0, n + 2);
+        sc.maintain(3);
+        for k in (0..n).step_by(2) {
+            sc.op("remove", k, 0, &[]);
+        }
+        sc.maintain(4);
+        sc.probe(0, n + 2);
+        for k in 0..n {
+            sc.op("insert", k, val(k, 7), &[]);
+        }
+        sc.probe(0, n + 2);
+        if sc.dead {
+            std::mem::forget(sc.s);
+        }
+    }
+    // ---- D: GoldHashMapConfig::large() grows at 1218 entries (1741 buckets x 0.7): fill across it
+    if big {
+        if let Some(s) = start(tr, "large_threshold", 1300) {
+            let maint = s.maint();
+            let mut sc = Script { s, tr: &mut *tr, c: &mut *c, maint, mi: 0, dead: false };
+            for k in 0..1240u32 {
+                sc.op("insert", k, val(k, 8), &[]);
+                if k % 64 == 0 || (1214..1224).contains(&k) {
+                    sc.op("len", 0, 0, &[]);
+                    sc.op("get", k, 0, &[]);
+                    sc.op("get", k / 2, 0, &[]);
+                    sc.op("get", k + 1, 0, &[]);
+                }
+            }
+            sc.op("iter", 0, 0, &[]);
+            for k in (0..1240u32).step_by(3) {
+                sc.op("remove", k, 0, &[]);
+            }
+            sc.maintain(1000);
+            sc.op("len", 0, 0, &[]);
+            sc.op("iter", 0, 0, &[]);
+            if sc.dead {
+                std::mem::forget(sc.s);
+            }
+        }
+    }
+    runs
 }
 
 // ---------------------------------------------------------------- B2: TLC behaviours
@@ -724,7 +1668,9 @@ fn replay_subject(a: &Args, name: &str, idx: usize, behaviours: &[Value]) -> (St
     let mut tr = Tracer::new(&a.out, &format!("mapb2-{idx:03}"));
     tr.max_events = 4000;
     let mut rng = Rng::new(a.seed).derive("b2sample").derive(name);
-    let sample_every = a.get_u64("sample", 200);
+    let light = is_light(name) && !a.thorough();
+    let stride = if light { 4 } else { 1 };
+    let sample_every = (a.get_u64("sample", 200) / stride as u64).max(1);
     let max_mismatch_traces = a.get_u64("max_mismatch", 150) as usize;
     let kid = |s: &Value| -> u32 { s.as_str().map(|x| x[1..].parse::<u32>().unwrap_or(1) - 1).unwrap_or(0) };
     let vid = |s: &Value| -> u32 { s.as_str().map(|x| x[1..].parse::<u32>().unwrap_or(1) * 10).unwrap_or(0) };
@@ -736,7 +1682,12 @@ fn replay_subject(a: &Args, name: &str, idx: usize, behaviours: &[Value]) -> (St
         let mut written = 0usize;
         let mut unsupported = 0usize;
         let mut executed = 0usize;
+        let mut injected = 0usize;
         for (bi, b) in behaviours.iter().enumerate() {
+            // light subjects take every 4th history, the offset moves with the seed
+            if (bi + a.seed as usize) % stride != 0 {
+                continue;
+            }
             let steps = match b.as_array() {
                 Some(x) => x,
                 None => continue,
@@ -745,14 +1696,37 @@ fn replay_subject(a: &Args, name: &str, idx: usize, behaviours: &[Value]) -> (St
                 Ok(Some(s)) => s,
                 _ => break,
             };
+            if s.initial().is_some() {
+                // the constructor filled the map: TLC's histories start from the empty map
+                s.clear();
+            }
+            // one maintenance-like call of the subject (content must not change) is injected before
+            // step `pos` of the history (pos = number of steps: none); kind and position rotate
+            let maint = s.maint();
+            let bq = bi / stride;
+            let pos = bq % (steps.len() + 1);
+            let kind = if maint.is_empty() { None } else { Some(maint[(bq / (steps.len() + 1)) % maint.len()]) };
             let mut evs: Vec<Value> = vec![];
             let mut differs = false;
             let mut dead = false;
             let mut skip = false;
-            for st in steps {
+            for (si, st) in steps.iter().enumerate() {
                 let op = st["op"].as_str().unwrap_or("");
                 let (k, v) = (kid(&st["k"]), vid(&st["v"]));
-                let e = match exec(&mut s, op, k, v, &universe) {
+                let x = XArgs { k, v, w: v, ks: vec![k], kv: vec![], n: bq % 23 };
+                if let (Some(kind), true) = (kind, si == pos) {
+                    if let Some(e) = exec(&mut s, &format!("x:{kind}"), &x, &universe) {
+                        injected += 1;
+                        let p = e["op"] == "panic";
+                        evs.push(e);
+                        if p {
+                            dead = true;
+                            differs = true;
+                            break;
+                        }
+                    }
+                }
+                let e = match exec(&mut s, op, &x, &universe) {
                     Some(e) => e,
                     None => {
                         skip = true; // operation not offered by this subject
@@ -778,7 +1752,7 @@ fn replay_subject(a: &Args, name: &str, idx: usize, behaviours: &[Value]) -> (St
                 }
                 evs.push(e);
                 // expected abstract state after the step, computed by TLC
-                let p = exec(&mut s, "probe", 0, 0, &universe).unwrap();
+                let p = exec(&mut s, "probe", &x, &universe).unwrap();
                 if p["op"] == "panic" {
                     dead = true;
                     differs = true;
@@ -793,7 +1767,8 @@ fn replay_subject(a: &Args, name: &str, idx: usize, behaviours: &[Value]) -> (St
                 let mut it: Vec<(u32, u32)> = p["iter"].as_array().unwrap().iter().map(|q| (q[0].as_u64().unwrap() as u32, q[1].as_u64().unwrap() as u32)).collect();
                 it.sort();
                 let has_iter = p["has_iter"].as_bool().unwrap();
-                if got != exp_pairs || !contains_ok || p["len"].as_u64().unwrap() as usize != exp_pairs.len() || (has_iter && it != exp_pairs) {
+                let empty_ok = p.get("empty").and_then(|b| b.as_bool()).map_or(true, |b| b == exp_pairs.is_empty());
+                if got != exp_pairs || !contains_ok || !empty_ok || p["len"].as_u64().unwrap() as usize != exp_pairs.len() || (has_iter && it != exp_pairs) {
                     differs = true;
                 }
                 evs.push(p);
@@ -822,7 +1797,7 @@ fn replay_subject(a: &Args, name: &str, idx: usize, behaviours: &[Value]) -> (St
             }
         }
         tr.close();
-        let v = json!({"behaviours": executed, "unsupported": unsupported, "mismatching": mism, "mismatch_traces_written": written});
+        let v = json!({"behaviours": executed, "unsupported": unsupported, "mismatching": mism, "mismatch_traces_written": written, "maintenance_injected": injected});
         let files = tr.files.iter().map(|p| p.display().to_string()).collect();
         (name.to_string(), v, total_exec, tr.total_events, tr.runs, files)
     }
